@@ -682,6 +682,32 @@ func (cx *c26Ctx) scanIf(e *c26Env, v *ast.IfStmt, p *c26Prog) bool {
 			return cx.checkNameCall(e, call, f.Str(as.Lhs[len(as.Lhs)-1]), inner, p)
 		}
 	}
+	// `if !E.GetCreateIfNotExist() { if isExist, existErr := hydra.IsExistSwamp(…); existErr != nil || !isExist { <harmless>; return <ok> } }`
+	// (PatchTreasures): without CreateIfNotExist a swamp that does not exist is answered per key instead of being summoned.  An
+	// early SUCCESS on a subset of the requests the engine would otherwise see: the model keeps its `body` step for them (its
+	// prediction `body, store=any` admits this answer), nothing can panic in the block, and no rejection is added.
+	if u, ok := v.Cond.(*ast.UnaryExpr); ok && u.Op == token.NOT && v.Init == nil && v.Else == nil && len(v.Body.List) == 1 {
+		if c, ok := u.X.(*ast.CallExpr); ok && len(c.Args) == 0 {
+			if suf, ok := e.entrySuffix(c); ok && suf == ".GetCreateIfNotExist()" {
+				if inner, ok := v.Body.List[0].(*ast.IfStmt); ok && inner.Else == nil && len(inner.Body.List) > 0 {
+					if as, ok := inner.Init.(*ast.AssignStmt); ok && len(as.Rhs) == 1 && len(as.Lhs) == 2 && as.Tok == token.DEFINE {
+						if call, ok := as.Rhs[0].(*ast.CallExpr); ok && strings.HasSuffix(f.Str(call.Fun), ".IsExistSwamp") {
+							sub := e.clone()
+							sub.boolLoc, sub.capVar, sub.singleVar = e.boolLoc, e.capVar, e.singleVar
+							sub.existVar = map[string]bool{f.Str(as.Lhs[0]): true, "err:" + f.Str(as.Lhs[1]): true}
+							cnd, okc := sub.cond(inner.Cond)
+							n := len(inner.Body.List)
+							ret, okr := inner.Body.List[n-1].(*ast.ReturnStmt)
+							pre := &ast.BlockStmt{List: inner.Body.List[:n-1]}
+							if okc && cnd == "notExist" && okr && e.classifyReturn(ret) == "ok" && e.harmless(pre, f.Str(inner.Cond)) {
+								return true
+							}
+						}
+					}
+				}
+			}
+		}
+	}
 	// `if isExist, existErr := hydra.IsExistSwamp(island, name); existErr != nil || !isExist { … }`: the existence test
 	// a handler makes itself before it summons (IsExistSwamp only looks, it does not create)
 	if as, ok := v.Init.(*ast.AssignStmt); ok && len(as.Rhs) == 1 && len(as.Lhs) == 2 && as.Tok == token.DEFINE {
